@@ -252,7 +252,9 @@ def handled_fanout_failure_with_siblings(m, history):
                   for _, st in walk(m))
     types = [h.get("type") for h in history]
     failed = [i for i, t in enumerate(types) if t in ("ParallelStateFailed", "MapStateFailed")]
-    return several and bool(failed) and len(types) > failed[0] + 2
+    # handled = the history goes on after <Type>StateFailed with something other than the end of the execution (the Catcher's StateExited,
+    # the Retrier's re-entry)
+    return several and any(i + 1 < len(types) and types[i + 1] not in ("ExecutionFailed", "ExecutionAborted", "ExecutionTimedOut") for i in failed)
 
 
 def callback_frames(error):
